@@ -41,4 +41,17 @@ img[off:off + 4] = struct.pack("<I", (1 << 24) | 8192)
 fg = F.sample_tree(random.Random(5), 4096)
 fg.super_over = {"xattr_table": 0xFFFFFFFFFFFFFFFF}
 (OUT / "d27_xattr_no_table.sqfs").write_bytes(fg.build())
+# D28: extended symlink as the last inode, its trailing xattr index cut off (inode table block shortened by 4 bytes)
+fg = F.Forge(4096)
+root = fg.add(F.Node(F.T_DIR)); fg.root = root
+f = fg.make_file(b"x")
+xl = fg.add(F.Node(F.T_XSLINK)); xl.target = b"target"
+root.entries = [(b"f", f), (b"xlink", xl)]
+img = bytearray(fg.build())
+off = [o for (o, w, n) in fg.fields if n == "itab.hdr0"][0]
+hdr = struct.unpack("<H", img[off:off + 2])[0]
+img[off:off + 2] = struct.pack("<H", 0x8000 | ((hdr & 0x7FFF) - 4))
+(OUT / "d28_slink_ext_truncated.sqfs").write_bytes(bytes(img))
+ino = struct.pack("<HHHHII", 10, 0o777, 0, 0, 5, 3) + struct.pack("<II", 1, 6) + b"target"        # no xattr field
+(OUT / "d28_inode_slink_ext.script").write_text("# extended symlink inode without its xattr index\ninode 4096 " + ino.hex() + "\n")
 print("corpus written:", sorted(p.name for p in OUT.iterdir()))
